@@ -1,5 +1,6 @@
 import IPT.Model.Range
 import IPT.Model.Times
+import IPT.Lemmas.Civil
 /-
   C14 — range results are the per-day results for exactly the days in the range.
   Model: IPT/Model/Range.lean (dates are day numbers; chrono's date arithmetic is validated by the
@@ -177,6 +178,31 @@ theorem rng_is_per_day {α : Type} [Add α] [Sub α] [Mul α] [Div α] [Neg α] 
     constructor
     · rintro ⟨x, ⟨rd, hrd, rfl⟩, rfl⟩; exact hrd
     · intro hd; exact ⟨_, ⟨d, hd, rfl⟩, rfl⟩
+
+
+/-! ### dates and day numbers -/
+
+/-- chrono's contract for `NaiveDate`: the calendar date of a day number has that day number … -/
+theorem civil_toRD_fromRD (n : Int) : toRD (fromRD n) = n := (CivilLemmas.fromRD_valid n).2.2.2.2.1
+
+/-- … and every calendar date is the date of its day number: dates and day numbers are in bijection -/
+theorem civil_fromRD_toRD (dt : Date) (h : CivilLemmas.ValidDate dt) : fromRD (toRD dt) = dt :=
+  CivilLemmas.fromRD_toRD dt h
+
+/-- the dates of a range are visited in strictly increasing order: every date exactly once -/
+theorem rangeDates_sorted (s e : Int) : (rangeDates s e).Pairwise (· < ·) := by
+  unfold rangeDates
+  rw [List.pairwise_map]
+  exact List.Pairwise.imp (fun h => by omega) List.pairwise_lt_range
+
+/-- and they are pairwise distinct calendar dates (year, month, day) -/
+theorem range_calendar_dates_distinct (s e : Int) : ((rangeDates s e).map fromRD).Pairwise (· ≠ ·) := by
+  rw [List.pairwise_map]
+  refine List.Pairwise.imp ?_ (rangeDates_sorted s e)
+  intro a b hab heq
+  have := congrArg toRD heq
+  rw [civil_toRD_fromRD, civil_toRD_fromRD] at this
+  omega
 
 -- non-vacuity: a concrete range meets the hypotheses and the conclusion is the expected split
 example : partition 738521 738530 4 = [(738521, 738523), (738524, 738526), (738527, 738529), (738530, 738530)] := by
